@@ -58,6 +58,7 @@ def norm_fn(q):
 
 def _envp(p, env):
     """rename the head of an access path: parameters -> $pN, locals -> $(initialiser) / $local<type>"""
+    if p and '<lambda@' in p: p = re.sub(r'<lambda@\d+>', '<lambda>', p)      # line numbers are not part of an atom
     if not env or not p: return p
     h = p.split('.')
     if h[0] in env: return '.'.join([env[h[0]]] + h[1:])
